@@ -113,6 +113,114 @@ def fixtures(ctx: Ctx) -> List[pathlib.Path]:
     return ps
 
 
+_BASES_CACHE: List[str] = []
+
+
+def _valid_bases(ctx: Ctx, fx: List[pathlib.Path]) -> List[str]:
+    """Valid (accepted) base models for the AST mutants: a rich hand-written one, small accepted fixtures, generated ones."""
+    if _BASES_CACHE:
+        return _BASES_CACHE
+    import random as _random
+    scratch = ctx.scratch()
+    path = scratch / "base.py"
+    out = [RICH_BASE]
+    for p in fx:
+        t = p.read_text(encoding="utf-8")
+        if 200 < len(t) < 5000 and "unexpected" not in str(p):
+            path.write_text(t, encoding="utf-8")
+            if load(path)["kind"] == "table":
+                out.append(t)
+        if len(out) >= 25:
+            break
+    try:
+        from harness import mm
+
+        r = _random.Random(20260921)  # fixed: the base set is seed independent
+        for _ in range(6):
+            t = mm.render(mm.random_mm(r, size=3))
+            path.write_text(t, encoding="utf-8")
+            if load(path)["kind"] == "table":
+                out.append(t)
+    except Exception:  # noqa
+        pass
+    _BASES_CACHE.extend(out)
+    return _BASES_CACHE
+
+
+RICH_BASE = '''class Kind(Enum):
+    """Represent a kind."""
+
+    One = "one"
+    """First."""
+
+    Two = "two"
+
+
+@invariant(lambda self: len(self.x) > 0, "X is non-empty.")
+class Code(str, DBC):
+    """Represent a code."""
+
+
+@abstract
+@serialization(with_model_type=True)
+class A(DBC):
+    """Represent A, see :class:`B` and :attr:`x`."""
+
+    x: int
+    """Some x"""
+
+    y: Optional[List[str]]
+
+    def __init__(self, x: int, y: Optional[List[str]] = None) -> None:
+        self.x = x
+        self.y = y
+
+
+@invariant(lambda self: not (self.y is not None) or len(self.y) >= 1, "Y is either not set or non-empty.")
+@invariant(lambda self: len(self.z) > 0 and matches_something(self.z), "Z is non-empty and matches.")
+@invariant(lambda self: self.kind is None or self.kind in Some_kinds, "Kind is in the set.")
+@invariant(lambda self: all(len(item) < 5 for item in self.codes), "Codes are short.")
+class B(A):
+    z: str
+    codes: List[Code]
+    kind: Optional[Kind]
+
+    def __init__(self, x: int, z: str, codes: List[Code], y: Optional[List[str]] = None, kind: Optional[Kind] = None) -> None:
+        A.__init__(self, x, y)
+        self.z = z
+        self.codes = codes
+        self.kind = kind
+
+    @implementation_specific
+    def do_something(self, a: int) -> bool:
+        """Do something."""
+
+
+@verification
+def matches_something(text: str) -> bool:
+    """Check that :paramref:`text` matches."""
+    prefix = "[a-z]"
+    pattern = f"^{prefix}+$"
+    return match(pattern, text) is not None
+
+
+@verification
+@implementation_specific
+def is_special(text: str) -> bool:
+    """Check specially."""
+
+
+Some_text: str = constant_str(value="some text", description="Some text.")
+
+Some_kinds: Set[Kind] = constant_set(values=[Kind.One, Kind.Two], description="Some kinds.")
+
+Some_strings: Set[str] = constant_set(values=["a", "b"], description="Some strings.", superset_of=[])
+
+__version__ = "dummy"
+__xml_namespace__ = "https://dummy.com"
+'''
+
+
 def mutate_tokens(text: str, rng: Any) -> Optional[str]:
     """One token-level edit of a source text (delete / duplicate / swap / replace / drop line)."""
     try:
@@ -229,6 +337,21 @@ def _explore(ctx: Ctx, with_model: bool) -> None:
                 m2 = mutate_tokens(m, ctx.rng)
                 m = m2 if m2 is not None else m
             cases.append(("mutant", m, {"text": m}))
+    # AST-level construct mutants (harness/ast_mutate.py) of VALID base models: fixtures that load and generated models
+    from harness import ast_mutate
+
+    valid_bases = _valid_bases(ctx, fx)
+    for text in valid_bases[:3]:
+        # seed-independent slice: every catalogue entry once, at rotating positions
+        for kind, cat in ast_mutate.KINDS:
+            for entry in range(len(cat)):
+                m = ast_mutate._apply(text, kind, entry * 7 + 3, entry)
+                if m is not None:
+                    cases.append(("ast-enumerated", m, {"text": m}))
+    for _ in range(ctx.n(500, 12000)):
+        got = ast_mutate.random_mutant(ctx.rng.choice(valid_bases), ctx.rng)
+        if got is not None:
+            cases.append(("ast-mutant", got[1], {"text": got[1], "mutation": got[0]}))
     for _ in range(ctx.n(30, 500)):
         raw = bytes(ctx.rng.randrange(256) for _ in range(ctx.rng.randrange(1, 60)))
         cases.append(("garbage", raw, {"bytes": raw.hex()}))  # type: ignore
